@@ -33,6 +33,13 @@ CLAIMED = {
                      "the operator's handler table delivers exactly what its ReactiveX definition assigns to that interleaving. Partial: concat, flat_map, switch_on_next, on_error_resume_next, ready_set_go and nestings with C02 operators "
                      "are decided by the correspondence impl = sequential machine (no operator theorem); combine_latest (D9) and sequence_equal (D10) are recorded known findings with witnesses C03_known_D9_witness / C03_known_D10_witness. "
                      "Tie: all interleavings of two hot sources up to length 4 (5), random ones for 3-4 sources, cold sources subscribed in the crate's order."),
+    "C04": dict(engine="coq-seq", design="DESIGN.md 6 C04",
+                technique="machine-checked proof in Coq (case analysis of every handler for error pass-through; induction over the list of attempts for retry / retry_when; list lemma for dematerialize after materialize) + specification oracles on every implementation observation and three-way correspondence",
+                text="Theorems C04_error_passthrough (every non-handler operator, every state: exactly one sink_error with the same payload, last), C04_retry / C04_retry_when (for every list of attempts the handler table forwards the "
+                     "items of attempts 1..m and makes exactly m subscriptions, m = first non-failing attempt capped by the budget), C04_dematerialize_materialize. Where an error arrives in a pipeline and what precedes it follows from "
+                     "C02_composition / C03_* whose inputs include the failing ending. Partial: on_error_resume_next is decided by its specification oracle on the implementation only. Tie: errors with distinct payload ids injected at "
+                     "every position of every script through every C02 operator, chains and C03 operators; retry budgets 0..4 and every retry_when predicate over sources whose k-th subscription differs, with the source's subscription "
+                     "counter compared to the definition's; resume targets from the family."),
     "C05": dict(engine="coq-seq", design="DESIGN.md 6 C05",
                 technique="machine-checked proof in Coq (every step of the worklist machine decomposed into basic moves; frozen-log invariant preserved by every move, hence by every run; gate invariant for all interleavings) + differential correspondence (sequential) and controlled schedules (concurrent)",
                 text="Theorems C05_unsubscribe_closes / C05_unsubscribe_freezes / C05_nothing_after_unsubscribe: on the sequential machine, for every pipeline over the whole catalogue, every scenario, "
